@@ -68,8 +68,11 @@ def analyse(ctx, cfg, fnpath, assume=(), args=None, **kw):
         raise X.Unanalysable('anchor function %s not found' % fnpath)
     hyps = kw.pop('_hyps', None)
     kw.pop('_no_len_limit', None)
+    exact = kw.pop('_exact_casts', None)
     ip = X.Interp(cr, **kw)
     ip.hyps = hyps
+    if exact:
+        ip.exact_casts = set(exact)
     names = ['a%d' % i for i in range(fn.arg_count)]
     st = ip.start_state(fn, args=args, arg_names=names)
     for f in assume:
